@@ -63,6 +63,8 @@ function e.pre(f) return f:preprocess("{{#invoke:b|echo|in}}") end
 local calls = 0
 counter_global = (counter_global or 0)
 function e.count(f) calls = calls + 1 counter_global = counter_global + 1 return "count=" .. calls .. "/" .. counter_global end
+function e.uselib(f) return require("Module:" .. f.args[1]).id() end
+function e.libfail(f) FAIL_AT_LOAD = true return require("Module:" .. f.args[1]).id() end
 return e'''
 BENIGN_CALLS = ["{{#invoke:b|sum}}", "{{#invoke:b|echo|q}}", "{{#invoke:b|lib}}", "{{#invoke:b|pre}}", "{{tb}}", "{{#invoke:b|count}}"]
 # invocations that fail in other ways than by timing out; run between the program and the follow-ups
@@ -114,6 +116,36 @@ NAME_KINDS = {
     "ignorable-error-phrase(getLinkPage)": " attempt to index a nil value (local 'lang') in function 'Module:links.getLinkPage'",
     "debug.error-phrase": " 'debug.error'",
 }
+
+
+# the loop runs WHILE A LIBRARY IS BEING LOADED by require(): what the module cache keeps of a load that never finished
+# is state that outlives the invocation when the per-invocation reset keeps the library (the product keeps modules by
+# NAME: its retained_modules list).  Library titles are drawn from names on that list and names that are not; every
+# such program is followed by benign invocations that require / #invoke the same library.
+LIBS = [("spinlib2", "plain-name"), ("my helpers", "plain-name"), ("utilities", "retained-name"), ("utils", "retained-name"),
+        ("links", "retained-name"), ("languages", "retained-name"), ("parameters", "retained-name"),
+        ("string utilities", "retained-name"), ("table", "retained-name"), ("string", "retained-name"),
+        ("debug", "retained-name"), ("labels", "retained-name")]
+LIB_CLASS = dict(LIBS)
+LIB_FAMILY = "loop-while-loading-required-library"
+LIB_KINDS = ["direct", "pcall", "xpcall", "nested-in-the-load-of-another-library", "in-nested-invoke"]
+# the library's load runs what the requiring invocation hands it in globals (the library is loaded in that environment)
+LIB_SRC = """local m = {}
+if NEST_LIB then local n = NEST_LIB NEST_LIB = nil m.inner = require('Module:' .. n) end
+if SPIN_AT_LOAD then local f = SPIN_AT_LOAD SPIN_AT_LOAD = nil f() end
+if FAIL_AT_LOAD then FAIL_AT_LOAD = nil error('library load boom') end
+function m.id() return 'lib-ok:%s' end
+function m.idf(frame) return 'libf-ok:%s' end
+return m"""
+
+
+def lib_outer(lib):
+    """The library in whose load `lib` is required (kind nested-in-the-load-of-another-library)."""
+    return LIBS[(LIBS.index((lib, LIB_CLASS[lib])) + 5) % len(LIBS)][0]
+
+
+def lib_followups(lib):
+    return ["{{#invoke:b|uselib|%s}}" % lib, "{{#invoke:%s|idf}}" % lib, "{{#invoke:b|uselib|%s}}{{#invoke:b|uselib|%s}}" % (lib, lib)]
 
 
 NEST_BODIES = ["while-true", "counting", "repeat", "string-lib", "table-lib", "mw-lib", "tail-rec", "mutual-rec", "metamethod",
@@ -178,7 +210,8 @@ def floors(tier):
             "counters.followups-after-time-jump": 20, "counters.disturbances": 50,
             "oracle.R1cpu-aborted-within-cpu-bound": 12, "oracle.R1cpu-slow-single-call": 2,
             "counters.nest-scan-programs": 500, "sets.depth-limit-vias": 4, "counters.module-title-phrase-programs": 80,
-            "sets.nest-kinds": 3}
+            "sets.nest-kinds": 3, "counters.library-load-programs": 55, "sets.library-title-classes": 2,
+            "counters.library-load-error-disturbances": 10}
 
 
 def shards(tier, seed):
@@ -210,6 +243,25 @@ def program(body_name, wrapper, n, name_kind="plain"):
                         "function e.f(frame) return frame:preprocess('{{#invoke:%s|g}}') end" % (int(depth), lname))
         elif kind in ("pcall", "xpcall"):
             f = nest + "function e.f(frame) nest(frame, %d) return 'returned' end" % int(depth)
+        else:
+            raise ValueError(w)
+    elif fam.startswith(LIB_FAMILY):
+        kind, _, lib = par.partition(":")
+        req = "require('Module:%s')" % lib.replace("'", "\\'")
+        arm = "SPIN_AT_LOAD = function() return spin(frame) end "
+        if kind == "direct":
+            f = "function e.f(frame) %s return %s.id() end" % (arm, req)
+        elif kind == "pcall":
+            f = "function e.f(frame) %s local ok, m = pcall(require, 'Module:%s') return 'caught:' .. tostring(ok) end" % (arm, lib)
+        elif kind == "xpcall":
+            f = ("function e.f(frame) %s local ok, m = xpcall(function() return %s end, function(m) return m end) "
+                 "return 'caught:' .. tostring(ok) end" % (arm, req))
+        elif kind == "nested-in-the-load-of-another-library":
+            outer = lib_outer(lib)
+            f = "function e.f(frame) %s NEST_LIB = '%s' return require('Module:%s').id() end" % (arm, lib, outer)
+        elif kind == "in-nested-invoke":
+            f = ("function e.g(frame) %s return %s.id() end\n"
+                 "function e.f(frame) return frame:preprocess('{{#invoke:%s|g}}') end" % (arm, req, lname))
         else:
             raise ValueError(w)
     elif fam == DEPTH_LIMIT_FAMILY:
@@ -293,11 +345,19 @@ class Parent:
             ("Module:b", 828, BENIGN), ("Template:tb", 10, "T[{{{1|d}}}]"),
             ("Module:spinlib", 828, "local m = {}\nfunction m.spin() while true do end end\nreturn m"),
             ("Module:spindata", 828, "local i = 0 while true do i = i + 1 end return {x = 1}"),
-            ("Module:notable", 828, "return nil"), ("Module:loaderr", 828, "error('load boom')")])
+            ("Module:notable", 828, "return nil"), ("Module:loaderr", 828, "error('load boom')")] + [
+            ("Module:" + lib, 828, LIB_SRC % (lib, lib)) for lib, _ in LIBS])
         self.ctx = self.cm.__enter__()
         self.ctx.db_conn.commit()
         self.ctx.start_page("Pg")
         self.expected = {c: self.ctx.expand(c) for c in BENIGN_CALLS}   # also initialises the Lua runtime
+        # the library follow-ups: from ANOTHER fresh context (this one must not have loaded any of the libraries)
+        with fresh(lua=True, pages=[("Module:b", 828, BENIGN)] + [("Module:" + lib, 828, LIB_SRC % (lib, lib)) for lib, _ in LIBS]) as fc:
+            fc.db_conn.commit()
+            for lib, _ in LIBS:
+                for c in lib_followups(lib):
+                    fc.start_page("Pg")
+                    self.expected[c] = fc.expand(c)
         self.clock = VClock(self.ctx, max_polls=10 ** 9)
         # debug.sethook only accepts Lua functions: wrap Python callables
         self.lua_fn = self.ctx.lua.eval("function(f) return function() f() end end")
@@ -773,10 +833,32 @@ def run_shard(spec):
             scan.append((rng2.choice(TITLE_BODIES), "load-time-loop", nk, "module-title-phrase-programs"))
             scan.append((rng2.choice(TITLE_BODIES), rng2.choice(["none", "pcall", "preprocess-nested-loop", "expandTemplate-loop"]), nk,
                          "module-title-phrase-programs"))
+    # the loop runs while a required library is being loaded (library titles on / not on the product's retained list)
+    libprogs = [(lib, kind) for lib, _ in LIBS for kind in LIB_KINDS]
+    random.Random(spec["seed"] // 1000 + 2).shuffle(libprogs)
+    for lib, kind in libprogs[spec["idx"]::16]:
+        w = "%s(%s):%s:%s" % (LIB_FAMILY, LIB_CLASS[lib], kind, lib)
+        scan.append(("while-true", w, "plain", "library-load-programs"))
+        if tier == "thorough":
+            for _ in range(3):
+                scan.append((rng2.choice(NEST_BODIES), w, "plain", "library-load-programs"))
     for k, (b, w, nk, counter) in enumerate(scan):
         fu = [rng2.choice(BENIGN_CALLS) for _ in range(rng2.randint(0, 2))] + ["{{#invoke:b|sum}}", "{{#invoke:b|count}}"]
+        disturb = []
+        if counter == "library-load-programs":
+            lib = w.rsplit(":", 1)[1]
+            other = rng2.choice(LIBS)[0]
+            obs.add("library-title-classes", LIB_CLASS[lib])
+            # the same library afterwards, required and invoked; and a library whose load FAILED with a Lua error
+            fu = lib_followups(lib) + fu
+            if ":nested-in-the-load-of-another-library:" in w:
+                fu = lib_followups(lib_outer(lib))[:2] + fu
+            if rng2.random() < 0.5:
+                disturb = ["{{#invoke:b|libfail|%s}}" % other]
+                fu = fu + lib_followups(other)[:2]
+                obs.count("library-load-error-disturbances")
         case = {"body": b, "wrapper": w, "limit": rng2.choice([0.5, 1]), "followups": fu, "jump": rng2.random() < 0.3,
-                "n": spec["seed"] * 100000 + 50000 + k, "disturb": [], "repeat": 1}
+                "n": spec["seed"] * 100000 + 50000 + k, "disturb": disturb, "repeat": 1}
         if nk != "plain":
             case["name_kind"] = nk
         obs.count(counter)
